@@ -1,5 +1,6 @@
 //@include prelude/head.rs
-broadcast use {ax::axiom_string_eq_spec, ax::axiom_string_obeys_eq, ax::axiom_string_to_string, axw::axiom_into_string_bytes, axw::axiom_version_round_trip};
+//@include prelude/hash.rs
+broadcast use {vstd::std_specs::hash::group_hash_axioms, axh::axiom_uuid_key_model, ax::axiom_string_eq_spec, ax::axiom_string_obeys_eq, ax::axiom_string_to_string, axw::axiom_into_string_bytes, axw::axiom_version_round_trip};
 //@props C01 C02 C04
 //@include regions/errors.rs
 //@include regions/op_types.rs
